@@ -214,6 +214,38 @@ func VerifH_C17_PrefixEnd() {
 	vObserve("end", end)
 }
 
+// VerifH_C17_KeyRange — O5 for the keys themselves: [k.Bytes(), k.PrefixEnd()) of an index key built from a symbolic
+// value (what createRangeBoundaries uses as the bounds of _gt / _le / _ge / _lt) and of a document key (what the
+// document fetcher scans) contains every key that extends it and no key beyond. conf: kind (field kind), which
+// (0 index key, 1 document key)
+func VerifH_C17_KeyRange() {
+	var kb, end []byte
+	if vConfInt("which") == 0 {
+		v := kMk("v", vConfInt("kind"))
+		k := NewIndexDataStoreKey(1, 1, []IndexedField{{Value: v.normal(), Descending: vChoose("desc", 2) == 1}})
+		kb, end = k.Bytes(), k.PrefixEnd()
+	} else {
+		k := DataStoreKey{CollectionShortID: uint32(vU16("col")), InstanceType: ValueKey}
+		vAssume(k.CollectionShortID != 0)
+		kb, end = k.Bytes(), k.PrefixEnd().Bytes()
+	}
+	vCover("ranged")
+	vAssert(bytes.Compare(kb, end) < 0, "end-is-behind-the-key")
+	// a key that extends k by one arbitrary byte is inside the range
+	ext := append(append([]byte{}, kb...), vU8("suffix"))
+	vAssert(bytes.Compare(ext, end) < 0, "extensions-of-the-key-are-inside-the-range")
+	// a byte string of the same length that is greater than k is not below the end (the range holds nothing else)
+	y := make([]byte, len(kb))
+	for i := range y {
+		y[i] = kb[i]
+	}
+	// (y differs from k in its last two bytes only: enough to cross a carry)
+	if len(y) >= 2 {
+		y[len(y)-1], y[len(y)-2] = vU8("y"), vU8("y")
+		vAssert(vImplies(bytes.Compare(y, kb) > 0, bytes.Compare(y, end) >= 0), "nothing-else-is-inside-the-range")
+	}
+}
+
 // VerifH_C17_KeysReach — vacuity twin
 func VerifH_C17_KeysReach() {
 	k := []byte{'/', vU8("b")}
